@@ -129,6 +129,11 @@ def specs(tier):
         out.append(("reduce-" + o, {"op": o}))
         for g in ("column", "stream"):
             out.append(("groupby-%s-%s" % (g, o), {"op": o, "kind": "frame", "groupby": g}))
+    # whole-frame reductions: the state is a mutable Series per statistic
+    for o in ("sum", "mean"):
+        out.append(("frame-" + o, {"op": o, "kind": "frame2"}))
+    out.append(("frame-window-n2-mean", {"op": "mean", "kind": "frame2", "window": ("n", 2)}))
+    out.append(("frame-expanding-mean", {"op": "mean", "kind": "frame2", "window": ("expanding",)}))
     for N in ((1, 2) if q else (1, 2, 3)):
         for o in ("sum", "count", "mean", "var"):
             out.append(("window-n%d-%s" % (N, o), {"op": o, "window": ("n", N)}))
